@@ -176,7 +176,7 @@ func runC07(c *Ctx, r *Run) {
 		}
 		r.Check("OB-Q2", "pkg/protocol.(*MultiHandler).store|never-overwrites", c.Pos(store.Pos()), okNo, "store writes a slot only while it is empty (the first message wins)", "store overwrites an occupied slot: a duplicate or a late equivocation replaces the message already processed")
 		checkGuardInventory(c, r, "OB-Q2", "round_guards.json", func(n string) bool {
-			return n == "pkg/protocol.(*MultiHandler).duplicate"
+			return n == "pkg/protocol.(*MultiHandler).duplicate" || strings.HasSuffix(n, ".canAccept")
 		})
 		// stale rounds: the non-covering guard recorded for canAccept
 		stale := false
